@@ -361,6 +361,18 @@ def gen_streams_join(rng, w, n):
 
 def run_receiver_case(rng, budget=60, adversarial=False, edge=False):
     """-> dict(cfg, items=[(lit, outs, digest, raw)], returns=[...], prov)"""
+    # the documented switches ZMQ_WARN_NEWER / ZMQ_WARN_OLDER only silence log lines (balanced pipelines, where late frames are
+    # normal, run with them off): some cases run with them off - what the receiver does is the same
+    saved_warn = (zeromq.ZMQ_WARN_NEWER, zeromq.ZMQ_WARN_OLDER)
+    if rng.random() < 0.2:
+        zeromq.ZMQ_WARN_NEWER = zeromq.ZMQ_WARN_OLDER = False
+    try:
+        return _run_receiver_case(rng, budget, adversarial, edge)
+    finally:
+        zeromq.ZMQ_WARN_NEWER, zeromq.ZMQ_WARN_OLDER = saved_warn
+
+
+def _run_receiver_case(rng, budget=60, adversarial=False, edge=False):
     cfg = gen_recv_config(rng)
     join = edge['join'] if isinstance(edge, dict) else 0
     if join:
@@ -532,7 +544,7 @@ def recv_oracle(run, case, props, wf):
             else:
                 continue
             break
-    if props & {'C01', 'C02'}:
+    if props & {'C01', 'C02', 'C07'}:
         # what one source's held set contains at any moment was published under one id: a set that mixes ids is handed over as it
         # is once it is complete (it may sit there for a while first)
         done = False
@@ -1344,6 +1356,13 @@ CORPUS_RECV = [
                  ['deliver', 0, _m('/b/', 10, 0, ['a', 'b'], 3)],
                  ['poll', [0], 0], ['poll', [0], 0], ['poll', [0], 0], ['poll', [], 0], ['poll', [], 0], ['poll', [], 0],
                  ['poll', [], 0], ['poll', [], 0], ['poll', [], 0]]),       # (the trailing empty polls are spare)
+    # W8: a recv() gives up holding half of id 5; the caller moves on and the next call expects id 7: what was held of id 5 is dropped,
+    #     the 'b' of id 7 does not complete it
+    dict(name='W8', cfg=dict(balance=False, low_latency=False, srcs=[dict(eph=0, mode=[['a', 'a'], ['b', 'b']])]),
+         script=[['call', 5, 100, 0], ['deliver', 0, _m('/a/', 10, 5, ['a', 'b'], 1)], ['poll', [0], 0], ['poll', [], 0],
+                 ['poll', [], 100000000], ['call', 7, 100, 100000000],
+                 ['deliver', 0, _m('/b/', 10, 7, ['a', 'b'], 2)], ['poll', [0], 100000000], ['poll', [], 100000000],
+                 ['poll', [], 200000000], ['poll', [], 200000000]]),
 ]
 
 
@@ -1657,8 +1676,13 @@ def glue_cases(run):
                     run.violation('glue:recv-state-after-none-result reply=%r' % script['ret'],
                                   'the deferred result was None (nothing published), the sender replied %r, and MQ keeps that as the state of the next recv()' % script['ret'],
                                   dict(sync=sync, ops=raw))
-                if kind in ('lazynone', 'lazyframe', 'lazydict') and not script['called'] and 'cb_result' in script and False:
-                    pass
+                # the sender discarded the frame without sending it (downstream asked for a newer id) and replied with the id it is at
+                # now: that reply is what tells this filter's own source to skip ahead - it becomes the state of the next recv()
+                if kind in ('frame', 'dict', 'empty') and st != 'nocall' and ok and script['ret'] is not None \
+                   and (mq.recv_state is None or mq.recv_state.msg_id != script['ret']):
+                    run.violation('glue:sender-reply-not-passed-upstream reply=%r kept=%r' % (script['ret'], None if mq.recv_state is None else mq.recv_state.msg_id),
+                                  'the sender replied %r to a frame it was handed, and the next recv() will be called with %r'
+                                  % (script['ret'], None if mq.recv_state is None else mq.recv_state.msg_id), dict(sync=sync, ops=raw))
         run.seen(('glue', sync, tuple(ops_lit)))
         run.count('glue:ops', len(ops_lit))
         cases.append((pairl(booll(sync), listl(ops_lit)), exp, dict(sync=sync, ops=raw)))
